@@ -25,7 +25,7 @@ def restricted_distances(dist, keep):
 
 
 @with_signature(SPEC)
-def c08_induced(**kw):
+def c08_induced(kw):
     parents = list(kw["shape"])
     n = len(parents) + 1
     variant = kw["variant"]
